@@ -217,8 +217,9 @@ func verifSpecCL(lowered string) primitive.ConsistencyLevel {
 //@   immutable: ctx, logger, sessionsMu, mu, closed, sessions, clients, listeners
 //@   guarded_by sessionsMu: sessions
 //@   guarded_by mu: isConnected, isClosing, clients, listeners
-// the prepared-statement metadata table holds preparedMetadata values only
-//@   syncmap preparedMetadata: typeis(v, preparedMetadata) [C17]
+// the prepared-statement metadata table holds preparedMetadata values only: a value is copied out of the table by
+// every reader, so no goroutine can change what another one is reading (pointers would be shared and unguarded)
+//@   syncmap preparedMetadata: typeis(v, preparedMetadata) [C17, C18]
 //@   invariant self.sessions != nil && self.sessionsMu != nil
 //@   invariant mapAll(self.sessions, k, v, v != nil && v.config.Version == k.version && v.config.Keyspace == k.keyspace && v.config.Compression == k.compression)
 
